@@ -517,6 +517,11 @@ func checkC19(tier string) int {
 			"Go toolchain " + goVersion(),
 		}}
 	writeEvidence(ev)
+	for i, n := range m.Notes {
+		if i < 12 {
+			fmt.Println("  note:", n)
+		}
+	}
 	fmt.Printf("C19: %d runs (%d core-space cases, exhaustive=%v), %d faults fired, %d unknown violations, %d known; %.0fs\n", m.Runs, enumMerged.Counters["enum_cases"], exhaustive, m.Counters["faults_fired"], unknown, len(knownHit), wall)
 	if unknown > 0 {
 		return 1
